@@ -9,4 +9,6 @@ INVARIANT NormLaws
 INVARIANT DivModLaws
 INVARIANT VectorOptLaws
 INVARIANT IntervalLaws
+INVARIANT AccessLaws
+INVARIANT OrderLaws
 CHECK_DEADLOCK FALSE
